@@ -8,6 +8,7 @@ import importlib
 import json
 import multiprocessing as mp
 import os
+import tempfile
 import sys
 import time
 import traceback
@@ -255,8 +256,13 @@ def run_property(pid: str, tier: str, seed: int = 0, only: str | None = None, pr
         'wall_s': round(wall, 2),
         'violations': len(violations),
     }
-    os.makedirs(os.path.join(VERIF, 'evidence'), exist_ok=True)
-    json.dump(ev, open(os.path.join(VERIF, 'evidence', f'{pid}.json'), 'w'), indent=1, sort_keys=True, default=repr)
+    # evidence/ only ever describes runs against /repo itself: a development run against another tree
+    # (VERIF_REPO_SRC, used for candidate fixes and seeded changes) writes to a scratch directory instead
+    evdir = os.path.join(VERIF, 'evidence')
+    if os.environ.get('VERIF_REPO_SRC'):
+        evdir = os.path.join(tempfile.gettempdir(), 'verif-dev-evidence', str(os.getpid()))
+    os.makedirs(evdir, exist_ok=True)
+    json.dump(ev, open(os.path.join(evdir, f'{pid}.json'), 'w'), indent=1, sort_keys=True, default=repr)
     print(f"property={pid} tier={tier} jobs={len(results)} paths={tot['paths']} obligations={tot['obligations']} "
           f"discharged={tot['discharged']} refuted={tot['refuted']} inconclusive={tot['inconclusive']} "
           f"queries={tot['queries']} solver_s={tot['solver_s']:.1f} wall_s={wall:.1f} exit={rc}")
